@@ -83,7 +83,8 @@ pub fn run(out: &mut Out, thorough: bool, seed: u64, _extra: &[String]) {
                 if ds == es && dm == em { out.raw(&format!("!OK batch_ring_iso k={} t={} kind={} # iso-{}", k, t, kind, cls)); }
                 else { out.raw(&format!("!FAIL batch_ring_iso {} {} {} {} :: sum/product of encodings does not decode slot-wise # iso-{}", k, t, fl(&v), fl(&w), cls)); }
                 // coefficient (polynomial) encoding: reduce mod t, inverted by coefficient decoding
-                let raw: Vec<u64> = (0..r.range(1, n as u64) as usize).map(|_| r.word()).collect();
+                // (boundary coefficients: 0, t-1, t itself, t+1, multiples of t, the largest word — and random words)
+                let raw: Vec<u64> = (0..r.range(1, n as u64) as usize).map(|_| match r.below(9) { 0 => 0, 1 => t - 1, 2 => t, 3 => t + 1, 4 => t.wrapping_mul(2), 5 => (u64::MAX / t) * t, 6 => u64::MAX, _ => r.word() }).collect();
                 let pe = enc.encode_polynomial_new(&raw);
                 let back = enc.decode_polynomial_new(&pe);
                 if back == raw.iter().map(|x| x % t).collect::<Vec<_>>() { out.raw(&format!("!OK poly_encode k={} # poly-{}", k, cls)); }
